@@ -48,7 +48,7 @@ SPECIAL_BASE_FAULTS = (
 MACRO_FILE_FAULTS = ["macro-file-" + f for f in ("missing", "directory", "dangling-symlink", "unreadable", "one-of-two-missing")]
 RULE_FAULTS = (
     ["pattern-file-" + f for f in FILE_FAULTS]
-    + ["yaml-broken", "pattern-missing", "pattern-null", "pattern-scalar", "pattern-int", "pattern-mapping", "config-null", "config-scalar", "config-list",
+    + ["yaml-broken", "yaml-second-document", "pattern-missing", "pattern-null", "pattern-scalar", "pattern-int", "pattern-mapping", "config-null", "config-scalar", "config-list",
        "cfg-mnemonics-full-match-str", "cfg-mnemonics-full-match-int", "cfg-operands-full-match-str", "cfg-sections-str", "cfg-sections-list-int", "cfg-valid-addr-range-scalar",
        "cfg-valid-addr-range-list", "cfg-valid-addr-range-no-max", "cfg-valid-addr-range-nonhex", "cfg-valid-addr-range-unquoted-bounds", "cfg-valid-addr-range-falsy", "cfg-style-int", "cfg-style-unknown", "macros-not-list-mapping", "macros-not-list-scalar",
        "empty-$and", "empty-$or", "empty-$and_any_order", "empty-$not", "not-2-args", "not-3-args", "deref-no-main-reg",
@@ -120,6 +120,24 @@ def inject_rule_fault(fault, doc, pos, garbage):
     k = pos % len(pat)
     raw = None
     extra = None
+    if fault == "yaml-second-document":
+        # malformed YAML of the multi-document kind: a stray `---` line inside the rule, two rules in one file, text after a `---`
+        # (a rule file is one document: whatever stands after the marker is not scanned "as written")
+        text = jasm_io.dump_yaml(doc)
+        lines = text.splitlines()
+        which = pos % 4
+        if which == 0 and len(lines) > 1:
+            cut = 1 + pos // 4 % (len(lines) - 1)
+            while cut < len(lines) and lines[cut][:1] in (" ", "-"):
+                cut += 1  # only a top-level line can follow a document marker and leave two well-formed documents
+            if cut >= len(lines):
+                return None, text + "---\n" + text, None
+            return None, "\n".join(lines[:cut]) + "\n---\n" + "\n".join(lines[cut:]) + "\n", None
+        if which == 1:
+            return None, text + "---\n" + text, None
+        if which == 2:
+            return None, text + "---\nzz_no_such_mnemonic\n", None
+        return None, "---\n" + text + "---\nmacros: []\n", None
     if fault == "yaml-broken":
         text = jasm_io.dump_yaml(doc)
         off = pos % (len(text) + 1)
@@ -457,14 +475,22 @@ def evaluate(case):
     macros = None
     path_override = None
     needs_nodac = False
+    preload = None  # (faulty path, good copy, kind): the path is loaded once while it is still good, in the same process, before the fault
+    want_preload = entry == "api" and case["pos"] % 2 == 1
     if fault.startswith("pattern-file-"):
         kind = fault[len("pattern-file-"):]
+        good_copy = rule_path
         rule_path = make_path_fault(kind, sc, "c17_faulty_rule.yaml", rule_path)
         needs_nodac = kind == "unreadable"
+        if want_preload and kind in ("unreadable", "missing"):
+            preload = (rule_path, good_copy, kind)
     elif fault.startswith("input-file-"):
         kind = fault[len("input-file-"):]
+        good_copy = input_path
         input_path = make_path_fault(kind, sc, "c17_faulty_input", input_path)
         needs_nodac = kind == "unreadable"
+        if want_preload and kind in ("unreadable", "missing"):
+            preload = (input_path, good_copy, kind)
     elif fault in MACRO_FILE_FAULTS:
         kind = fault[len("macro-file-"):]
         if kind == "one-of-two-missing":
@@ -475,6 +501,8 @@ def evaluate(case):
         else:
             macros = [make_path_fault(kind, sc, "c17_faulty_macros.yaml", base_macro_files[0])]
             needs_nodac = kind == "unreadable"
+            if want_preload and kind in ("unreadable", "missing"):
+                preload = (macros[0], base_macro_files[0], kind)
     elif fault == "objdump-absent-llvm-objdump-present":
         # no objdump on PATH, but a program of another name that disassembles in another format: the input is not scanned by what
         # the listing parser reads, so the operation must fail like with no disassembler at all
@@ -532,6 +560,29 @@ def evaluate(case):
         # the CLI child needs python itself; only objdump must be missing
         pass
     call = run_entry(entry, rule_path, input_path, binary, macros, sc, path_override)
+    if preload is not None:
+        # the same path answered once while the file was still there and readable (same process, same size, same timestamps):
+        # the failure afterwards must be as loud as in a fresh process
+        ev.tags.append("fault-after-successful-load")
+        plain_call = call
+        faulty_path, good_copy, pkind = preload
+
+        def call():
+            import shutil
+
+            if os.path.lexists(faulty_path):
+                os.chmod(faulty_path, 0o600)
+                os.unlink(faulty_path)
+            shutil.copy2(good_copy, faulty_path)
+            first = plain_call()
+            if pkind == "unreadable":
+                os.chmod(faulty_path, 0)
+            else:
+                os.unlink(faulty_path)
+            if classify(first) != "found":
+                return [("inconclusive", "preload-not-found")]
+            return plain_call()
+
     if needs_nodac:
         # control: the same entry point on the intact pair, in the same kind of capability-less child, must still say 'found'
         control = run_entry(entry, good_rule_path, good_input_path, binary, base_macro_files, sc, None)
